@@ -37,7 +37,20 @@ func c10Extra(c *Ctx) {
 		ok, found := true, false
 		ast.Inspect(fr.Decl.Body, func(x ast.Node) bool {
 			rs, isRange := x.(*ast.RangeStmt)
-			if !isRange || !strings.HasSuffix(exprString(rs.X), "Modules()") {
+			if !isRange {
+				return true
+			}
+			src := exprString(rs.X)
+			if o := identObj(info, rs.X); o != nil {
+				// a local holding the module list
+				ast.Inspect(fr.Decl.Body, func(m ast.Node) bool {
+					if as, ok := m.(*ast.AssignStmt); ok && len(as.Lhs) == 1 && len(as.Rhs) == 1 && identObj(info, as.Lhs[0]) == o {
+						src = exprString(as.Rhs[0])
+					}
+					return true
+				})
+			}
+			if !strings.HasSuffix(src, "Modules()") {
 				return true
 			}
 			found = true
